@@ -175,9 +175,16 @@ structure WSpec where
   base : Nat                  -- id of the base CRL (>= 1)
   delta : Nat                 -- id of the delta CRL, 0 = none
   len : Nat                   -- abstract size of the entry (beyond its 3-cell header)
+  obj : Nat                   -- which FileCache VALUE issues the call: 0 = the long-lived value shared by the
+                              -- in-process Set calls and the `get` events, n+1 = a value of its own (another
+                              -- process). The cache is the DIRECTORY: the model ignores this field
+                              -- (`obj_irrelevant`) - whatever earlier calls on the same value did or failed to do.
   deriving Repr, FromJson, ToJson
 
-inductive Kind | create | write | wfail | close | rename | crash | get | probe
+/-- `cfail`: the Set call failed BEFORE any file-system step (its `os.CreateTemp` failed: directory
+briefly missing, EMFILE, ENOSPC ...) and returned the error; `rnfail`: its `os.Rename` failed, the
+cleanup removed the temp file, the call returned the error. -/
+inductive Kind | create | write | wfail | close | rename | crash | get | probe | cfail | rnfail
   deriving DecidableEq, Repr, FromJson, ToJson
 
 /-- one step of the executed trace. `a` = writer (or key for `get`), `b` = byte count for
@@ -236,7 +243,7 @@ def mkData (base delta len : Nat) : Bytes := base :: delta :: len :: List.replic
 def specOf (i : Input) (w : Nat) : WSpec :=
   match i.writers[w]? with
   | some s => s
-  | none => ⟨0, 0, 0, 0⟩
+  | none => ⟨0, 0, 0, 0, 0⟩
 
 def prog (i : Input) : Prog :=
   { wkey := fun w => (specOf i w).key
@@ -253,6 +260,8 @@ def Ev.toEvent (e : Ev) : Option Event :=
   | .crash => some (.crash e.a)
   | .get => none
   | .probe => none
+  | .cfail => none                         -- a failed creation is no file-system step at all (`Tie.failed_create_is_noop`)
+  | .rnfail => some (.giveup e.a)          -- the failed rename itself changes nothing; the cleanup removes the temp file
 
 def stepEv (p : Prog) (s : Sys) (e : Ev) : Sys :=
   match e.toEvent with
@@ -295,11 +304,31 @@ def isOpened (s : Sys) (w : Nat) : Bool :=
   | .opened _ _ _ => true
   | _ => false
 
-/-- the Set calls whose write failed (while they were writing), in trace order -/
+def isClosed (s : Sys) (w : Nat) : Bool :=
+  match s.wst w with
+  | .closed _ _ => true
+  | _ => false
+
+def isIdle (s : Sys) (w : Nat) : Bool :=
+  match s.wst w with
+  | .idle => true
+  | _ => false
+
+/-- event `e` is a step at which its Set call fails, in state `s`: a write that fails while the
+call is writing, a creation that fails before the call did anything, a rename that fails after the
+close -/
+def failsAt (s : Sys) (e : Ev) : Bool :=
+  match e.kind with
+  | .wfail => isOpened s e.a
+  | .cfail => isIdle s e.a
+  | .rnfail => isClosed s e.a
+  | _ => false
+
+/-- the Set calls that failed (creation, write or rename), in trace order -/
 def failedOf (p : Prog) : List Ev → Sys → List Nat
   | [], _ => []
   | e :: es, s =>
-    if e.kind = .wfail && isOpened s e.a then e.a :: failedOf p es (stepEv p s e)
+    if failsAt s e then e.a :: failedOf p es (stepEv p s e)
     else failedOf p es (stepEv p s e)
 
 def insertAsc (x : Nat) : List Nat → List Nat
@@ -334,7 +363,9 @@ Statement sentence -> clause:
   URL" is judged on CONTENT (base and delta CRL): some Set call for that URL stores exactly it;
 * "after the writing process is killed at any point": the same clauses on traces containing
   `crash` (the probe after the kill: key files absent or complete, `present` consistent with Get);
-  and after a write that FAILED while the writer kept running (`wfail`);
+  and after a write that FAILED while the writer kept running (`wfail`), a creation that failed
+  (`cfail`) and a rename that failed (`rnfail`) - in particular a LATER Set through the same
+  FileCache value is judged like any other (its completed rename must be visible);
 * "a read that starts after a write for the URL has returned does not yield an older bundle":
   `get_after_set_returned_is_not_older` - on content: for every Set call `w` of the URL whose
   rename precedes the Get, the bundle returned is what some Set call of the URL stores whose rename
@@ -346,7 +377,7 @@ Statement sentence -> clause:
   leftovers while every Get is still a miss / complete bundle, and `others = 0` (nothing but entries
   and notation-* files ever appears); the name-level fact is theorem `temp_never_key`.
 Out of scope (not in the statement / not observable here): power loss (no fsync), Windows,
-failures of close / rename (not injectable from outside).
+failures of close (not injectable from outside).
 -/
 
 def isDone (s : Sys) (w : Nat) : Bool := s.wst w == .done
